@@ -87,6 +87,10 @@ def area_cases(ctx):
         src, lines = r[0], r[1]
         flags = list(r[2]) if len(r) > 2 else []
         out.append((name, src, flags, lines))
+        if hasattr(m, "tree_ledger_cases"):
+            # nested tables: copy / move / merge between related tables must release everything exactly once
+            tsrc, tlines = m.tree_ledger_cases(ctx)
+            out.append(("nested-hash-tables", tsrc, [], tlines))
     return out
 
 
